@@ -112,7 +112,7 @@ func zzDrawInner() zzInnerResp {
 	if n > 0 {
 		b.copies = verifrt.Bool("body-sent-with-io-copy")
 	}
-	if b.explicit && n > 0 {
+	if b.explicit && n == 1 && !b.copies {
 		b.flushes = verifrt.Bool("flush-after-the-status")
 	}
 	return b
